@@ -140,7 +140,8 @@ def build_ocaml():
         return False, out, time.time() - t0
     for s in srcs:
         shutil.copy(s, d)
-    order = ['sexp.ml', 'conv.ml'] + [os.path.basename(s) for s in srcs if os.path.basename(s) not in ('sexp.ml', 'conv.ml', 'modelrun.ml')] + ['modelrun.ml']
+    first = ['sexp.ml', 'conv.ml', 'histrun.ml']   # histrun.ml holds the shared ledger printers (state_sx, result_sx, op_of): linked before the other glue files
+    order = first + [os.path.basename(s) for s in srcs if os.path.basename(s) not in first + ['modelrun.ml']] + ['modelrun.ml']
     rc, out2, _ = sh('ocamlfind ocamlopt -O2 -package zarith -linkpkg -w -a model.mli model.ml %s -o modelrun 2>&1 || ocamlfind ocamlopt -package zarith -linkpkg -w -a model.mli model.ml %s -o modelrun' % (' '.join(order), ' '.join(order)), cwd=d, timeout=900)
     return rc == 0, out + out2, time.time() - t0
 
